@@ -238,6 +238,45 @@ func AliasProbe(t *gobinlog.Transaction) string {
 		c     *gobinlog.ColumnData
 		want  []byte
 	}
+	// the same object handed out in two places (a consumer that completes or
+	// masks one cell in place changes the other as well)
+	seenCol := map[*gobinlog.ColumnData]string{}
+	seenRow := map[*gobinlog.RowData]string{}
+	seenEv := map[*gobinlog.StreamEvent]string{}
+	for ei, e := range t.Events {
+		if e == nil {
+			continue
+		}
+		if w, ok := seenEv[e]; ok {
+			return fmt.Sprintf("event %d is the same *StreamEvent as %s", ei, w)
+		}
+		seenEv[e] = fmt.Sprintf("event %d", ei)
+		for _, im := range []struct {
+			name string
+			rs   []*gobinlog.RowData
+		}{{"after", e.RowValues}, {"before", e.RowIdentifies}} {
+			for ri, r := range im.rs {
+				if r == nil {
+					continue
+				}
+				wr := fmt.Sprintf("event %d %s row %d", ei, im.name, ri)
+				if w, ok := seenRow[r]; ok {
+					return fmt.Sprintf("%s is the same *RowData as %s", wr, w)
+				}
+				seenRow[r] = wr
+				for ci, c := range r.Columns {
+					if c == nil {
+						continue
+					}
+					wc := fmt.Sprintf("%s col %d (%s)", wr, ci, c.Filed)
+					if w, ok := seenCol[c]; ok {
+						return fmt.Sprintf("%s is the same *ColumnData as %s: changing one changes the other", wc, w)
+					}
+					seenCol[c] = wc
+				}
+			}
+		}
+	}
 	var cells []cell
 	for ei, e := range t.Events {
 		for name, rs := range map[string][]*gobinlog.RowData{"after": e.RowValues, "before": e.RowIdentifies} {
